@@ -30,7 +30,7 @@ MPT_STRUCT(parseIterator) {
 static int parseConvertElement(MPT_INTERFACE(convertable) *conv, MPT_TYPE(type) type, void *dest)
 {
 	MPT_STRUCT(parseIterator) *it = MPT_baseaddr(parseIterator, conv, elem._conv);
-	const char *txt;
+	const char *txt, *vis;
 	int len;
 	
 	/* indicate consumed value */
@@ -41,7 +41,10 @@ static int parseConvertElement(MPT_INTERFACE(convertable) *conv, MPT_TYPE(type) 
 	if (it->restore) {
 		*it->restore = it->save;
 	}
-	if (!*txt) {
+	/* only white space left is no element */
+	vis = txt;
+	while (isspace(*vis)) ++vis;
+	if (!*vis) {
 		if (type == 's') {
 			if (dest) ((char **) dest)[0] = 0;
 			it->restore = 0;
@@ -140,6 +143,12 @@ static int parseAdvance(MPT_INTERFACE(iterator) *ptr)
 		it->val = it->restore + 1;
 		*it->restore = it->save;
 		it->restore = 0;
+		/* trailing white space is no further element */
+		for (next = it->val; next < it->end && isspace(*next); ++next);
+		if (next >= it->end) {
+			it->val = 0;
+			return 0;
+		}
 	}
 	else if ((next = memchr(it->val, 0, len))) {
 		it->val = next + 1;
